@@ -502,6 +502,7 @@ def run(ctx):
     c02.views(_Prefixed(ctx, "quantity-"), m)
     c02.level_walk(_Prefixed(ctx, "quantity-"), m)
     c02.wrappers(_Prefixed(ctx, "quantity-"), m)
+    c02.side_queries(_Prefixed(ctx, "quantity-"), m)     # per-price / touch look-ups of the side structure return what is stored
     ctx.extra["programs"] = programs
     ctx.extra["disagreements_checked"] = sum(1 for o in ctx.obligations if o["rule"] in ("layout", "dict", "columns"))
     ctx.extra["samples"] = samples
